@@ -8,6 +8,8 @@
 (***************************************************************************)
 EXTENDS Wal
 
+SubSymmetry == Permutations(Subs)
+
 \* a crash state that cuts a record exists (vacuity witness, checked with -coverage)
 TornCrashStates == pc = "down" /\ Len(seg) > 0 /\ seg[Len(seg)].kind = "torn"
 =============================================================================
